@@ -222,6 +222,9 @@ def run(ctx: Ctx):
         "with a missing DTSTART any of the documented incomplete-information errors is accepted even if all alarms are absolute",
         "times are minutes from 2024-03-30T00:00; the zoned kind is Europe/Berlin across its 2024-03-31 DST start; values inside the nonexistent hour are not generated",
     ]
+    # ------------------------------------------------------------- FRESH: history independence of returned objects (spec/Fresh.tla)
+    from vf import fresh
+    fresh.step(ctx, "C14")
     return ctx.finish(rule=(
         "15 component shapes x 153 single-alarm shapes + pairs, Event and Todo, API-built and parsed, both providers; random "
         "shapes validated by TLC; non-trivial = at least one alarm has a TRIGGER"))
